@@ -147,7 +147,9 @@ func (w *Writer) Unlink(reader *Reader) bool {
 			w.readers = append(w.readers[:i], w.readers[i+1:]...)
 
 			for j := range w.receives {
-				w.receives[j] = append(w.receives[j][:i], w.receives[j][i+1:]...)
+				if i < len(w.receives[j]) {
+					w.receives[j] = append(w.receives[j][:i], w.receives[j][i+1:]...)
+				}
 			}
 
 			for len(w.receives) > 0 && !slices.Contains(w.receives[0], nil) {
